@@ -552,10 +552,14 @@ func (s *Sim) Run() {
 		maxSteps = 20000
 	}
 
-	switchDen := s.SwitchDen
-	if switchDen == 0 {
-		switchDen = 4
+	// How readily the running task is preempted is a knob of the run, drawn
+	// once: frequent switching finds races between short sections, rare
+	// switching lets one task run through a long section while another
+	// stays parked in the middle of its own.
+	if s.SwitchDen == 0 {
+		s.SwitchDen = Pick(s.T, []int{2, 3, 4, 4, 8, 16}, "switch-den")
 	}
+	switchDen := s.SwitchDen
 
 	idle := 0
 	s.Quiet = false
